@@ -97,6 +97,10 @@ CbOf(c, p) ==
     [] c = "pathname" -> IF ProtocolMatchesSpecial(p.c.protocol) THEN "pathname" ELSE "opaquepathname"
     [] OTHER -> c
 
+\* A fixed-text part whose value the encoding callback reduced to the EMPTY string ("{#}" in an opaque pathname: '#' ends
+\* the path) stays in the Standard's part list but generates no text, so it cannot survive generate o parse: the identity
+\* is on the part lists without such parts (found by the MaxTok = 4 bound: ":{#}").
+NonEmptyParts(ps) == SelectSeq(ps, LAMBDA q : ~(q.type = "fixed" /\ q.value = <<>>))
 ResultOk ==
   Done =>
     /\ LET p == Pat IN
@@ -105,7 +109,7 @@ ResultOk ==
              \A c \in CompNames :
                LET comp == p.c[c]
                    again == ParsePatternString(comp.pattern, CbOf(c, p), comp.o)
-               IN /\ again.unspec \/ (again.ok /\ again.parts = comp.parts)                      \* generate o parse = id
+               IN /\ again.unspec \/ (again.ok /\ NonEmptyParts(again.parts) = NonEmptyParts(comp.parts))   \* generate o parse = id
                   /\ ((comp.names = <<>> /\ \A k \in 1..Len(comp.parts) : comp.parts[k].modifier = "none") =>
                         CompTest(comp, Concat([j \in 1..Len(comp.parts) |-> comp.parts[j].value]))))
 
